@@ -83,7 +83,7 @@ impl Service<http::Request<u32>> for Rec {
             INNER_CALLS += 1;
             SEEN_METHOD = method_id(req.method());
             SEEN_VERSION = version_id(req.version());
-            SEEN_PATH_OK = req.uri().path().as_bytes() == b"/pkg.Svc/Call";
+            SEEN_PATH_OK = req.uri().path().as_bytes() == b"/p.S/Call";
             SEEN_TE = req.headers().get(http::header::TE).map(|v| v.as_bytes() == b"trailers").unwrap_or(false);
             SEEN_MARK = req.headers().get(http::header::FROM).is_some();
             SEEN_BODY = *req.body();
@@ -132,7 +132,7 @@ fn run(with_te: bool, mark: bool) {
     let mut req = http::Request::new(body);
     *req.method_mut() = method_of(mk);
     *req.version_mut() = version_of(vk);
-    *req.uri_mut() = http::Uri::from_static("/pkg.Svc/Call");
+    *req.uri_mut() = http::Uri::from_static("/p.S/Call");
     if with_te {
         // a protocol-reserved name: must reach the wrapped service untouched (no sanitizing on this path)
         req.headers_mut().insert(http::header::TE, HeaderValue::from_static("trailers"));
@@ -177,21 +177,21 @@ fn run(with_te: bool, mark: bool) {
 }
 
 #[kani::proof]
-#[kani::unwind(16)]
+#[kani::unwind(13)]
 #[kani::stub(alloc::fmt::format, fmt_stub)]
 #[kani::stub(std::hash::RandomState::new, random_state_stub)]
 fn ic_no_headers() {
     run(false, false)
 }
 #[kani::proof]
-#[kani::unwind(16)]
+#[kani::unwind(13)]
 #[kani::stub(alloc::fmt::format, fmt_stub)]
 #[kani::stub(std::hash::RandomState::new, random_state_stub)]
 fn ic_reserved_header() {
     run(true, false)
 }
 #[kani::proof]
-#[kani::unwind(16)]
+#[kani::unwind(13)]
 #[kani::stub(alloc::fmt::format, fmt_stub)]
 #[kani::stub(std::hash::RandomState::new, random_state_stub)]
 fn ic_insert_metadata() {
